@@ -205,7 +205,8 @@ CLAIMS["C19"] = (
 )
 # necessary conditions added with the fourth and fifth held-out rounds (DESIGN.md §9.9, §9.10): state that outlives a call, error paths, helpers
 STATE = (" State that outlives a call: no table kept at module / class level and consulted on the way from this property's entry points is keyed by a node id, "
-         "a class or source name, or a node object, and no class test is made against a tuple extended at run time (positive patterns; DESIGN.md §9.10).")
+         "a class or source name, or a node object, and no class test is made against a tuple extended at run time (positive patterns; DESIGN.md §9.10-9.12: also memoised "
+         "functions on live values, cached closures, one-shot iterators kept or consumed twice, switches reset without try/finally, mutable defaults).")
 EXTRA = {
     "C01": " Every child position contributes to the digest (no child skipped under a condition, no de-duplication in the generated enumeration)." + STATE,
     "C02": " The walk over the positions is never pruned." + STATE,
